@@ -114,6 +114,15 @@ func tryValidate(val reflect.Value) error {
 		return nil
 	}
 
+	if t.Kind() == reflect.Interface {
+		// the value an interface holds validates itself like any other
+		val = val.Elem()
+		t = val.Type()
+		if t.Kind() == reflect.Ptr && val.IsNil() {
+			return nil
+		}
+	}
+
 	if t.Implements(tValidator) {
 		validator = val.Interface().(Validator)
 	} else if reflect.PtrTo(t).Implements(tValidator) {
